@@ -40,7 +40,7 @@ package ast
 //@ cellinv H_ast_Literal_Value v: canon(v)
 
 // every listed property name of an object literal has an initialiser
-//@ typeinv ast.ObjectLiteral o: forall(k, 0, len(o.Keys), has(o.Properties, o.Keys[k].Lexeme))
+//@ typeinv ast.ObjectLiteral o: forall(k, 0, len(o.Keys), has(o.Properties, o.Keys[k].Lexeme) && nodeOK(o.Properties[o.Keys[k].Lexeme]) && lvl(o.Properties[o.Keys[k].Lexeme]) >= 0)
 
 // C01: the shape every tree has -- a binary node's left child sits at least on the operator's ladder level, its right child
 // strictly above it (left association); prefix operators take an operand of level unary or above (they bind tighter than
@@ -48,8 +48,95 @@ package ast
 //@ typeinv ast.Binary b: nodeOK(b.Left) && nodeOK(b.Right) && binLevel(b.Operator.Type) >= 3 && lvl(b.Left) >= binLevel(b.Operator.Type) && lvl(b.Right) > binLevel(b.Operator.Type)
 //@ typeinv ast.Logical l: nodeOK(l.Left) && nodeOK(l.Right) && logLevel(l.Operator.Type) >= 1 && lvl(l.Left) >= logLevel(l.Operator.Type) && lvl(l.Right) > logLevel(l.Operator.Type)
 //@ typeinv ast.Unary u: isPrefixOp(u.Operator.Type) && nodeOK(u.Right) && lvl(u.Right) >= 12
-//@ typeinv ast.Call c: nodeOK(c.Callee) && lvl(c.Callee) >= 13
-//@ typeinv ast.ArrayAccess a: nodeOK(a.Array) && lvl(a.Array) >= 13 && nodeOK(a.Index)
+//@ typeinv ast.Call c: nodeOK(c.Callee) && lvl(c.Callee) >= 13 && forall(k, 0, len(c.Arguments), nodeOK(c.Arguments[k]) && lvl(c.Arguments[k]) >= 0)
+//@ typeinv ast.ArrayAccess a: nodeOK(a.Array) && lvl(a.Array) >= 13 && nodeOK(a.Index) && lvl(a.Index) >= 0
 //@ typeinv ast.PropertyAccess a: nodeOK(a.Object) && lvl(a.Object) >= 13
 //@ typeinv ast.ArrayAssignment a: nodeOK(a.Array) && lvl(a.Array) >= 13 && nodeOK(a.Index) && nodeOK(a.Value)
 //@ typeinv ast.PropertyAssignment a: nodeOK(a.Object) && lvl(a.Object) >= 13 && nodeOK(a.Value)
+
+// String is only ever invoked on expression nodes (the evaluator quotes the object expression of a failed property access):
+// the interface contract demands an expression node, the statement nodes' methods are declared unreachable.
+//@ iface Expr.String [C07]
+//@ requires [expr] nodeOK(recv) && lvl(recv) >= 0
+
+//@ func (b *Binary) String [C07]
+//@ requires [recv] b != nil
+
+//@ func (g *Grouping) String [C07]
+//@ requires [recv] g != nil
+
+//@ func (l *Literal) String [C07]
+//@ requires [recv] l != nil
+
+//@ func (u *Unary) String [C07]
+//@ requires [recv] u != nil
+
+//@ func (i *Identifier) String [C07]
+//@ requires [recv] i != nil
+
+//@ func (l *Logical) String [C07]
+//@ requires [recv] l != nil
+
+//@ func (c *Call) String [C07]
+//@ requires [recv] c != nil
+
+//@ func (a *ArrayLiteral) String [C07]
+//@ requires [recv] a != nil
+
+//@ func (a *ArrayAccess) String [C07]
+//@ requires [recv] a != nil
+
+//@ func (o *ObjectLiteral) String [C07]
+//@ requires [recv] o != nil
+
+//@ func (p *PropertyAccess) String [C07]
+//@ requires [recv] p != nil
+
+//@ func (x *Return) String [C07]
+//@ unreachable statement nodes are never rendered (Expr.String requires an expression node)
+
+//@ func (x *ExpressionStatement) String [C07]
+//@ unreachable statement nodes are never rendered (Expr.String requires an expression node)
+
+//@ func (x *PrintStatement) String [C07]
+//@ unreachable statement nodes are never rendered (Expr.String requires an expression node)
+
+//@ func (x *VarStmt) String [C07]
+//@ unreachable statement nodes are never rendered (Expr.String requires an expression node)
+
+//@ func (x *VarListStmt) String [C07]
+//@ unreachable statement nodes are never rendered (Expr.String requires an expression node)
+
+//@ func (x *AssignmentStmt) String [C07]
+//@ unreachable statement nodes are never rendered (Expr.String requires an expression node)
+
+//@ func (x *BlockStmt) String [C07]
+//@ unreachable statement nodes are never rendered (Expr.String requires an expression node)
+
+//@ func (x *IfStmt) String [C07]
+//@ unreachable statement nodes are never rendered (Expr.String requires an expression node)
+
+//@ func (x *While) String [C07]
+//@ unreachable statement nodes are never rendered (Expr.String requires an expression node)
+
+//@ func (x *ForStmt) String [C07]
+//@ unreachable statement nodes are never rendered (Expr.String requires an expression node)
+
+//@ func (x *BreakStmt) String [C07]
+//@ unreachable statement nodes are never rendered (Expr.String requires an expression node)
+
+//@ func (x *ContinueStmt) String [C07]
+//@ unreachable statement nodes are never rendered (Expr.String requires an expression node)
+
+//@ func (x *FunctionStmt) String [C07]
+//@ unreachable statement nodes are never rendered (Expr.String requires an expression node)
+
+//@ func (x *ArrayAssignment) String [C07]
+//@ unreachable statement nodes are never rendered (Expr.String requires an expression node)
+
+//@ func (x *PropertyAssignment) String [C07]
+//@ unreachable statement nodes are never rendered (Expr.String requires an expression node)
+
+// children of expression nodes are expression nodes
+//@ typeinv ast.Grouping g: nodeOK(g.Expression) && lvl(g.Expression) >= 0
+//@ typeinv ast.ArrayLiteral a: forall(k, 0, len(a.Elements), nodeOK(a.Elements[k]) && lvl(a.Elements[k]) >= 0)
